@@ -15,6 +15,7 @@ import pickle
 from traits.api import (
     HasTraits, TraitError, Undefined, Any, Int, CInt, Float, Str, Range, Enum, Tuple, Map, List,
     Dict, Set, Instance, ReadOnly, Property, cached_property, observe, on_trait_change,
+    PrototypedFrom, DelegatesTo,
 )
 
 from vf.lattice import lattice
@@ -45,10 +46,19 @@ class Leaf(HasTraits):
         _log(self, "leaf:o:xs.items")
 
 
+class Style(HasTraits):
+    color = Str("red")
+    width = Int(1)
+
+
 MAP = {"yes": 1, "no": 0, "maybe": 2}
 
 
 class Obj(HasTraits):
+    # deferring traits declared BEFORE the Instance trait holding their delegate
+    # (copy_traits must still copy them after it)
+    pcolor = PrototypedFrom("style", "color")
+    dwidth = DelegatesTo("style", "width")
     # scalars
     n = Int(3)
     f = Range(0.0, 10.0, 1.0)
@@ -74,6 +84,10 @@ class Obj(HasTraits):
     friend = Instance(Leaf, copy="ref")
     child_sh = Instance(Leaf, copy="shallow")
     reg = Dict(Str, Instance(Leaf))
+    style = Instance(Style)
+    # ... and the usual order: deferring traits declared after their delegate holder
+    pcolor2 = PrototypedFrom("style", "color")
+    dwidth2 = DelegatesTo("style", "width")
     # transient
     t_n = Int(7, transient=True)
     t_xs = List(Int, [1, 2], transient=True)
@@ -195,7 +209,9 @@ class Obj(HasTraits):
 
 OBJ_SCALARS = ("n", "f", "name", "c", "e", "tup", "m")
 OBJ_CONTAINERS = ("xs", "cl", "lf", "la", "ll", "d", "dl", "da", "s", "xs_ref")
-OBJ_GRAPH = ("child", "kids", "friend", "child_sh", "reg")
+OBJ_GRAPH = ("child", "kids", "friend", "child_sh", "reg", "style")
+OBJ_DEFER = ("pcolor", "dwidth", "pcolor2", "dwidth2")     # compared by read outcome (a missing delegate raises)
+STYLE_PERSISTENT = ("color", "width")
 OBJ_TRANSIENT = ("t_n", "t_xs", "t_any")
 OBJ_BAGS = ("bag", "bag_deep", "bag_sh", "bag_ref")
 OBJ_PERSISTENT = OBJ_SCALARS + OBJ_CONTAINERS + OBJ_GRAPH + ("ro",) + OBJ_BAGS
@@ -204,7 +220,17 @@ LEAF_TRANSIENT = ("tmp",)
 
 
 def persistent_names(node):
+    if isinstance(node, Style):
+        return STYLE_PERSISTENT
     return OBJ_PERSISTENT if isinstance(node, Obj) else LEAF_PERSISTENT if isinstance(node, Leaf) else ()
+
+
+def read(node, name):
+    """('ok', value) or ('exc', exception class name) of reading node.name."""
+    try:
+        return ("ok", getattr(node, name))
+    except Exception as e:  # noqa: BLE001
+        return ("exc", type(e).__name__)
 
 
 def transient_names(node):
@@ -257,8 +283,13 @@ def gen_ops(rng, n, mutable_bags):
     def pick(pool):
         return pool[rng.randrange(len(pool))]
     for _ in range(n):
-        c = rng.randrange(30)
-        if c < 3:
+        c = rng.randrange(34)
+        if c >= 30:
+            ops.append(("defer", pick(["style_new", "style_new", "style_new", "swap", "style_none", "pset", "pset",
+                                       "pset", "pset2", "dset", "dset2", "pdel", "pdel2", "style_color",
+                                       "style_width"]),
+                        pick(["blue", "green", "", 5, None]), rng.randint(0, 9)))
+        elif c < 3:
             nm = pick(OBJ_SCALARS)
             ops.append(("set", nm, pick(SCALAR_VALUES[nm])))
         elif c < 8:
@@ -494,6 +525,33 @@ def apply_op(o, op):
             o.reg[key] = o.child
         elif what == "reg_del":
             o.reg.pop(key, None)
+    elif k == "defer":
+        what, col, w = op[1:]
+        if what == "style_new":
+            if o.style is None:
+                o.style = Style()
+        elif what == "swap":
+            o.style = Style(color="c%d" % w, width=w)
+        elif what == "style_none":
+            if w < 3:
+                o.style = None
+        elif what == "pset":
+            o.pcolor = col
+        elif what == "pset2":
+            o.pcolor2 = col
+        elif what == "dset":
+            o.dwidth = w if col is not None else "bad"
+        elif what == "dset2":
+            o.dwidth2 = w
+        elif what == "pdel":
+            del o.pcolor
+        elif what == "pdel2":
+            del o.pcolor2
+        elif o.style is not None:
+            if what == "style_color":
+                o.style.color = "s%d" % w
+            else:
+                o.style.width = w + 10
     elif k == "trans":
         setattr(o, op[1], op[2])
     elif k == "ro":
@@ -686,6 +744,14 @@ def veq(a, b, memo, path="obj"):
             r = veq(getattr(a, nm), getattr(b, nm), memo, path + "." + nm)
             if r:
                 return r
+        if isinstance(a, Obj):
+            for nm in OBJ_DEFER:
+                ra, rb = read(a, nm), read(b, nm)
+                if ra[0] != rb[0] or (ra[0] == "exc" and ra[1] != rb[1]) or \
+                        (ra[0] == "ok" and not same(ra[1], rb[1])):
+                    return (path + "." + nm, "reads %s in the original%s, %s in the copy%s" % (
+                        short(ra, 40), " (local override)" if nm in a.__dict__ else "",
+                        short(rb, 40), " (local override)" if nm in b.__dict__ else ""))
         return None
     if type(a) is not type(b):
         return (path, "type %s vs %s" % (type(a).__name__, type(b).__name__))
@@ -731,6 +797,9 @@ def snapshot(root):
         for nm in value_names(n):
             v = getattr(n, nm)
             vals[nm] = ("id", id(v)) if (is_cont(v) or isinstance(v, HasTraits)) else ("v", v)
+        if isinstance(n, Obj):
+            for nm in OBJ_DEFER:
+                vals[nm] = ("v", read(n, nm) + (nm in n.__dict__,))
         sn[i] = (n, vals)
     return sc, sn
 
@@ -1224,11 +1293,62 @@ class Battery:
         self.ctx.count("readonly_checked")
         self.ctx.sig("live-readonly", self.mclass)
 
+    # -- deferral -------------------------------------------------------------
+    def deferral(self):
+        """Overridden prototyped values stay overridden; delegated ones are read and
+        written through the copy's own delegate."""
+        C, O = self.C, self.O
+        st = C.style
+        if st is None or not self.own(st):
+            return
+        self.trace.append(("deferral",))
+        for nm in ("pcolor", "pcolor2"):
+            if nm not in O.__dict__:
+                continue
+            self.ctx.ev()
+            self.ctx.count("deferral_checked")
+            keep = read(C, nm)
+            if nm not in C.__dict__:
+                self.fail("live-deferral", "override-lost/" + nm,
+                          "the original overrides %s locally (%s), the copy does not (reads %s)"
+                          % (nm, short(read(O, nm), 40), short(keep, 40)))
+            st.color = st.color + "~"
+            now = read(C, nm)
+            if now != keep:
+                self.fail("live-deferral", "override-follows-prototype/" + nm,
+                          "%s read %s, after changing the copy's prototype %s" % (nm, short(keep, 40), short(now, 40)))
+        for nm in ("dwidth", "dwidth2"):
+            self.ctx.ev()
+            self.ctx.count("deferral_checked")
+            want = st.width + 31
+            try:
+                setattr(C, nm, want)
+            except Exception as e:  # noqa: BLE001
+                self.fail("live-deferral", "delegated-write-raised/" + nm, "%s: %r" % (type(e).__name__, e))
+            if st.width != want or read(C, "dwidth") != ("ok", want) or read(C, "dwidth2") != ("ok", want):
+                self.fail("live-deferral", "delegated-write-not-through-own-delegate/" + nm,
+                          "%s <- %d: copy's style.width = %r, dwidth reads %s, dwidth2 reads %s"
+                          % (nm, want, st.width, short(read(C, "dwidth"), 30), short(read(C, "dwidth2"), 30)))
+            try:
+                setattr(C, nm, "bad")
+                out = "ok"
+            except TraitError:
+                out = "TE"
+            except Exception as e:  # noqa: BLE001
+                out = type(e).__name__
+            if out != "TE" or st.width != want:
+                self.fail("live-deferral", "invalid-delegated-write-mishandled/" + nm,
+                          "%s <- 'bad' gave %s, style.width now %r" % (nm, out, st.width))
+            self.ctx.count("live_rejected")
+        self.ctx.sig("live-deferral", self.mclass, "pcolor" in O.__dict__, "pcolor2" in O.__dict__)
+        del LOG[:]
+
     def run(self):
         self.item_probes()
         self.notification_probes()
         self.property_steps()
         self.readonly()
+        self.deferral()
 
 
 # --------------------------------------------------------------------------- per-state oracle
@@ -1236,7 +1356,8 @@ def features(o):
     ch = o.child
     return (ch is not None, ch is not None and any(k is ch for k in o.kids),
             ch is not None and ch.back is o, min(len(o.ll), 1) + min(len(o.dl), 1),
-            o.ro is not Undefined, any(is_cont(getattr(o, b)) for b in OBJ_BAGS))
+            o.ro is not Undefined, any(is_cont(getattr(o, b)) for b in OBJ_BAGS),
+            o.style is not None, "pcolor" in o.__dict__ or "pcolor2" in o.__dict__)
 
 
 def check_copy(ctx, rng, mode, mclass, fn, O, feat, fresh):
@@ -1460,6 +1581,10 @@ def calibrate():
             o.ll = [[1], [2, 3]]
             o.dl = {"a": [1]}
             o.ro = 4
+            o.style = Style()
+            twin_over = variant == 2
+            if twin_over:
+                o.pcolor = "blue"
         if variant == 2:
             o.kids.append(o.child)
             o.child.back = o
@@ -1467,6 +1592,9 @@ def calibrate():
         twin = Obj()
         if variant >= 1:
             twin.ro = 4
+            twin.style = Style()
+            if variant == 2:
+                twin.pcolor = "blue"
         b = Battery(c, random.Random(variant), "fresh", "fresh", twin, o, {})
         try:
             b.run()
